@@ -473,7 +473,7 @@ func matchKinds(w []int) bool {
 
 // C02 / C03 / C08 / C10 / C12 — the real client handshake against a symbolic peer.
 //
-//verif:harness props=C02,C03,C08,C10,C12,C09,C01 twinprops=C02,C03,C08,C10,C19,C01 paths=400000 tpaths=4000000 depth=300 reach=completedFull,completedResumed,failed
+//verif:harness props=C02,C03,C08,C10,C12,C09,C01,C04 twinprops=C02,C03,C08,C10,C19,C01,C04 paths=400000 tpaths=4000000 depth=300 reach=completedFull,completedResumed,failed
 func VerifHarness_client_handshake() {
 	stubSuites()
 	cache := &verifCache{}
